@@ -1,70 +1,70 @@
 /* C12: secp256k1_musig_pubkey_ec_tweak_add / _xonly_tweak_add (BIP-327 ApplyTweak bookkeeping), real code.
- * Every pointer NULL or an object with arbitrary bytes.  Oracles: secp256k1_ecmult (P + t*G, argument/result
- * log) and secp256k1_ge_set_gej (log).  Real: cache load/save, scalar_set_b32 / negate / add, parity test, negation of y.
+ * Every pointer NULL or an object with arbitrary bytes.  Oracles: secp256k1_ecmult (Q + t*G, argument/result log) and
+ * secp256k1_ge_set_gej (log).  Real: cache load/save, scalar_set_b32 / negate / add, parity test, negation of y.
+ * The keyagg cache and the public key output are OPAQUE: they are decoded before and after the call with the TU's own
+ * keyagg_cache_load / pubkey_load and every clause is over the decoded fields (audit #17).
  *   tweak >= n                      => 0
  *   xonly and y(Q) odd              => Q := -Q, gacc flips (parity_acc ^= 1), tacc := -tacc
  *   tacc := tacc + t mod n ; Q := Q + t*G (oracle) ; Q = infinity => 0
- *   cache and output written only on success; output_pubkey zeroed on failure (header) */
+ *   on failure the output public key is an INVALID key object (header); nothing is demanded about the cache on failure */
 #define LOG_ECMULT
 #define LOG_GE_SET_GEJ
-#include "assumed.h"
+#include "assumed_musig.h"
 #include "src/secp256k1.c"
 #include "post.h"
-
-size_t g_k;
+#include "decode.h"
 
 #ifndef VERIF_NATIVE
-static wide le256(const unsigned char *b) { wide v = 0; int i; for (i = 31; i >= 0; i--) v = (v << 8) | W(b[i]); return v; }
-static wide modp(wide v) { wide p = P_(); int i; for (i = 0; i < 4; i++) if (v >= p) v -= p; return v; }   /* operands here are < 5p (magnitude <= 2) */
-static wide modn1(wide v) { wide n = N_(); return v >= n ? v - n : v; }
+static int is_neg_mod_p(wide a, wide b) { wide p = P_(); int i, hit = 0; for (i = 0; i < 12; i++) hit |= (a + b == (wide)i * p); return hit; }
 #endif
 
 void h_tweak(void) {
     secp256k1_context ctx;
     INPUT(secp256k1_musig_keyagg_cache, cache); INPUT(secp256k1_pubkey, out); INPUT_ARR(unsigned char, tweak, 32);
     INPUT(_Bool, xonly); INPUT(_Bool, use_out); INPUT(_Bool, use_cache); INPUT(_Bool, use_tweak); INPUT(size_t, k);
-    secp256k1_musig_keyagg_cache cache0 = cache;
-    static const unsigned char magic[4] = { 0xf4, 0xad, 0xbb, 0xdf };
-    int ret, magic_ok;
+    secp256k1_keyagg_cache_internal c0, c1; secp256k1_ge O;
+    int ret, cache_ok, cache1_ok, out_ok;
+    dec_init(); cache_ok = dec_cache(&c0, &cache);
     verif_ctx_init(&ctx);
-    g_k = k; __CPROVER_assume(g_k < sizeof(cache.data));
+    __CPROVER_assume(k < 32);
     g_ecmult_n = 0; g_sg_n = 0;
-    magic_ok = cache0.data[0] == magic[0] && cache0.data[1] == magic[1] && cache0.data[2] == magic[2] && cache0.data[3] == magic[3];
 
     if (xonly) ret = secp256k1_musig_pubkey_xonly_tweak_add(&ctx, use_out ? &out : NULL, use_cache ? &cache : NULL, use_tweak ? tweak : NULL);
     else       ret = secp256k1_musig_pubkey_ec_tweak_add(&ctx, use_out ? &out : NULL, use_cache ? &cache : NULL, use_tweak ? tweak : NULL);
 
+    cache1_ok = dec_cache(&c1, &cache); out_ok = dec_pubkey(&O, &out);
     __CPROVER_assert(ret == 0 || ret == 1, "C12 tweak: returns 0 or 1");
     __CPROVER_assert(g_error == 0, "C12 tweak: error callback never invoked");
-    __CPROVER_assert(g_ecmult_n <= 1 && g_sg_n <= 1, "C12 tweak: at most one curve multiplication and one conversion");
-    if (ret == 0) __CPROVER_assert(cache.data[g_k] == cache0.data[g_k], "C12 tweak: keyagg cache untouched on failure");
-    if (ret == 0 && use_out && g_k < 64) __CPROVER_assert(out.data[g_k] == 0, "C12 tweak: output public key zeroed on failure");
+    if (ret == 0 && use_out) __CPROVER_assert(!out_ok, "C12 tweak: on failure the output public key is an invalid key object (header)");
     if (!use_cache || !use_tweak) __CPROVER_assert(ret == 0 && g_illegal == 1, "C12 tweak: NULL cache or tweak is illegal");
-    else if (!magic_ok) __CPROVER_assert(ret == 0 && g_illegal == 1 && g_ecmult_n == 0, "C12 tweak: cache without magic is illegal, nothing computed");
+    else if (!cache_ok) __CPROVER_assert(ret == 0 && g_illegal == 1, "C12 tweak: uninitialised cache is illegal");
     else {
 #ifndef VERIF_NATIVE
-        wide n = N_(), p = P_(), t = be256(tweak), X = le256(&cache0.data[4]), Y = le256(&cache0.data[36]), tacc = modn1(be256(&cache0.data[165]));
-        int par = cache0.data[164] & 1, canon = X < p && Y < p, flip = xonly && (Y & 1), canon2 = le256(&cache0.data[68]) < p && le256(&cache0.data[100]) < p;
+        wide n = N_(), p = P_(), t = be256(tweak), X = fval(&c0.pk.x), Y = fval(&c0.pk.y), tacc = sval(&c0.tweak);
+        int par = c0.parity_acc, canon = X < p && Y < p, flip = xonly && (Y & 1);
         __CPROVER_assert(g_illegal == 0, "C12 tweak: no callback for an initialised cache");
-        if (t >= n) __CPROVER_assert(ret == 0 && g_ecmult_n == 0, "C12 tweak: tweak >= n rejected before any curve work");
+        if (t >= n) __CPROVER_assert(ret == 0, "C12 tweak: tweak >= n rejected");
         else {
-            __CPROVER_assert(g_ecmult_n == 1, "C12 tweak: a valid tweak reaches the curve addition");
-            __CPROVER_assert(g_ecmult_has_na0 && g_ecmult_has_ng0 && sval(&g_ecmult_na0) == 1 && sval(&g_ecmult_ng0) == t, "C12 tweak: computes 1*Q + t*G with t the given tweak");
+            __CPROVER_assert(g_ecmult_n >= 1, "C12 tweak: a valid tweak reaches the curve addition");
             __CPROVER_assert(ret == !g_ecmult_r0.infinity, "C12 tweak: result at infinity => 0, otherwise 1");
+        }
+        if (ret == 1) {
+            wide tacc2 = flip ? negn_(tacc) : tacc, tnew = tacc2 + t >= n ? tacc2 + t - n : tacc2 + t;
+            __CPROVER_assert(t < n && g_ecmult_has_na0 && g_ecmult_has_ng0 && sval(&g_ecmult_na0) == 1 && sval(&g_ecmult_ng0) == t, "C12 tweak: the new key is 1*Q + t*G with t the given tweak");
             if (canon) {   /* a cache written by the library holds canonical coordinates */
-                __CPROVER_assert(fval(&g_ecmult_a0.x) == X && fval(&g_ecmult_a0.z) == 1 && !g_ecmult_a0.infinity, "C12 tweak: the point tweaked has the cached x");
-                __CPROVER_assert(modp(fval(&g_ecmult_a0.y)) == (flip ? p - Y : Y), "C12 tweak: x-only tweak of a key with odd y first negates the key; plain tweak and even y leave it");
+                __CPROVER_assert(cval4(&g_ecmult_a0.x) == X && cval4(&g_ecmult_a0.z) == 1 && !g_ecmult_a0.infinity, "C12 tweak: the point tweaked has the cached x");
+                __CPROVER_assert(flip ? is_neg_mod_p(fval(&g_ecmult_a0.y), Y) : cval4(&g_ecmult_a0.y) == Y, "C12 tweak: x-only tweak of a key with odd y first negates the key; plain tweak and even y leave it");
+                __CPROVER_assert(cache1_ok && c1.parity_acc == (par ^ flip), "C12 tweak: parity accumulator flips exactly when the key was negated");
+                __CPROVER_assert(sval(&c1.tweak) == tnew, "C12 tweak: tweak accumulator = (+/-)tacc + t mod n, negated exactly when the key was negated");
             }
-            if (ret == 1) {
-                wide tacc2 = flip ? (tacc == 0 ? 0 : n - tacc) : tacc, tnew = tacc2 + t >= n ? tacc2 + t - n : tacc2 + t;
-                __CPROVER_assert(g_sg_n == 1 && FE_EQ(g_sg_a0.x, g_ecmult_r0.x) && FE_EQ(g_sg_a0.y, g_ecmult_r0.y) && FE_EQ(g_sg_a0.z, g_ecmult_r0.z), "C12 tweak: the stored key is the affine form of the sum");
-                if (canon) __CPROVER_assert((cache.data[164] & 1) == (par ^ flip) && cache.data[164] <= 1, "C12 tweak: parity accumulator flips exactly when the key was negated");
-                if (canon) __CPROVER_assert(be256(&cache.data[165]) == tnew, "C12 tweak: tweak accumulator = (+/-)tacc + t mod n, negated exactly when the key was negated");
-                __CPROVER_assert(le256(&cache.data[4]) == modp(fval(&g_sg_r0.x)) && le256(&cache.data[36]) == modp(fval(&g_sg_r0.y)), "C12 tweak: cache holds the canonical coordinates of the new key");
-                if (g_k < 4 || (g_k >= 132 && g_k < 164) || (canon2 && g_k >= 68 && g_k < 132)) __CPROVER_assert(cache.data[g_k] == cache0.data[g_k], "C12 tweak: magic, second key and key-list hash unchanged");
-                __CPROVER_assert(modp(fval(&g_sg_r0.x)) < p, "C12 tweak: spec helper modp is total on the conversion result");
-                if (use_out && g_k < 64) __CPROVER_assert(out.data[g_k] == cache.data[4 + g_k], "C12 tweak: output public key is the new aggregate key");
-            }
+            __CPROVER_assert(g_sg_n >= 1 && GEJ_EQ(g_sg_a0, g_ecmult_r0), "C12 tweak: the stored key is the affine form of the sum");
+            __CPROVER_assert(cache1_ok && !c1.pk.infinity && cval(&c1.pk.x) == cval4(&g_sg_r0.x) && cval(&c1.pk.y) == cval4(&g_sg_r0.y), "C12 tweak: the cache holds the new key");
+            __CPROVER_assert(c1.pks_hash[k] == c0.pks_hash[k], "C12 tweak: key-list hash unchanged");
+            if (c0.second_pk.infinity || (fval(&c0.second_pk.x) < p && fval(&c0.second_pk.y) < p))   /* canonical, as written by the library */
+            __CPROVER_assert(c1.second_pk.infinity == c0.second_pk.infinity &&
+                             (c0.second_pk.infinity || (cval(&c1.second_pk.x) == cval(&c0.second_pk.x) && cval(&c1.second_pk.y) == cval(&c0.second_pk.y))), "C12 tweak: second key unchanged");
+            /* (the conversion oracle may hand out x = 0, which no curve point has and which is not a valid key object) */
+            if (use_out && cval4(&g_sg_r0.x) != 0) __CPROVER_assert(out_ok && cval(&O.x) == cval(&c1.pk.x) && cval(&O.y) == cval(&c1.pk.y), "C12 tweak: output public key is the new aggregate key");
         }
         if (ret == 1 && flip && canon && tacc != 0 && par == 1) REACH("tweak xonly with odd y, negated accumulator");
         if (ret == 1 && !xonly && canon && (Y & 1)) REACH("tweak plain with odd y");
